@@ -162,6 +162,98 @@ Definition c12_registry_check : bool :=
                     match mt_signer m, find_handler (mt_handler m) with Some _, Some _ => true | _, _ => false end)
           msg_types.
 
+(* ---- closed-world CLASSIFICATION of every registered message of a DeFi module.
+   Every message type is exactly one of
+     owner-guarded   it names a position id and is in [position_msgs] (owner comparison proved on the table);
+     signer-keyed    [signer_keyed_msgs]: no id, acts on the records stored under the signer's own address;
+     exempt          [owner_exempt]: names a position, deliberately open to every signer (reason there);
+     no position     [no_position_msgs] below: the message names no existing position of any user - it opens
+                     a position for the signer with the signer's own coins, funds a shared pool / programme,
+                     bids the signer's own coins on a shared auction lot, or is permissionless by design - with
+                     the reviewed reason; the extended matrix checks that such a message never changes the
+                     balances or records of an account that did not sign it (except as listed in
+                     [third_party_effect]);
+     admin           esm.MsgKillRequest (c12_kill_switch_admin).
+   A new sdk.Msg of one of these modules that nobody classified breaks c12_classification_closed. *)
+Definition no_position_msgs : list (string * string) :=
+  [("vault.MsgCreateRequest", "opens a vault for the signer with the signer's coins");
+   ("vault.MsgCreateStableMintRequest", "opens the shared stable-mint vault / swaps the signer's coins in");
+   ("locker.MsgCreateLockerRequest", "opens a locker for the signer with the signer's coins");
+   ("lend.MsgLend", "opens a lend position for the signer with the signer's coins");
+   ("lend.MsgBorrowAlternate", "opens a lend and a borrow position for the signer with the signer's coins");
+   ("lend.MsgFundModuleAccounts", "funds the pool's module account with the signer's coins");
+   ("lend.MsgFundReserveAccounts", "funds the reserve with the signer's coins");
+   ("lend.MsgCalculateInterestAndRewards", "accrual on the positions stored under the signer's own address; moves, reduces, closes nothing");
+   ("liquidity.MsgCreatePair", "creates a shared pair; the signer pays the creation fee");
+   ("liquidity.MsgCreatePool", "creates a shared pool with the signer's coins");
+   ("liquidity.MsgCreateRangedPool", "creates a shared pool with the signer's coins");
+   ("liquidity.MsgDeposit", "deposits the signer's coins into a shared pool (pool coins are bearer tokens)");
+   ("liquidity.MsgDepositAndFarm", "deposits the signer's coins and farms the signer's pool coins");
+   ("liquidity.MsgWithdraw", "burns the signer's own pool coins (bearer tokens) for the pool's reserves");
+   ("liquidity.MsgFarm", "farms the signer's own pool coins");
+   ("liquidity.MsgLimitOrder", "opens an order for the signer with the signer's coins");
+   ("liquidity.MsgMarketOrder", "opens an order for the signer with the signer's coins");
+   ("liquidity.MsgMMOrder", "opens market-making orders for the signer with the signer's coins");
+   ("auction.MsgPlaceSurplusBidRequest", "bid of the signer's coins on a shared lot; the previous highest bidder is paid back");
+   ("auction.MsgPlaceDebtBidRequest", "bid of the signer's coins on a shared lot; the previous highest bidder is paid back");
+   ("auction.MsgPlaceDutchBidRequest", "purchase from a seized vault's lot with the signer's coins; what is left goes to the seized vault's owner");
+   ("auction.MsgPlaceDutchLendBidRequest", "purchase from a seized borrow's lot with the signer's coins");
+   ("auctionsV2.MsgPlaceMarketBidRequest", "bid / purchase with the signer's coins on a shared lot; an outbid bidder is paid back, the rest of a seized vault goes to its owner");
+   ("auctionsV2.MsgDepositLimitBidRequest", "opens / enlarges the limit bid stored under the signer's own address with the signer's coins");
+   ("liquidationsV2.MsgLiquidateExternalKeeperRequest", "an outside application auctions collateral it brings itself (signer's coins); no position of this chain is named");
+   ("liquidationsV2.MsgAppReserveFundsRequest", "funds an app's reserve with the signer's coins");
+   ("esm.MsgDepositESM", "burns the signer's own governance tokens towards the shutdown target");
+   ("esm.MsgExecuteESM", "permissionless by design once the deposit target is reached");
+   ("esm.MsgCollateralRedemptionRequest", "after shutdown: burns the signer's own debt tokens for a share of the pooled collateral");
+   ("rewards.MsgCreateGauge", "funds a reward programme with the signer's coins");
+   ("rewards.ActivateExternalRewardsLockers", "funds a reward programme with the signer's coins");
+   ("rewards.ActivateExternalRewardsVault", "funds a reward programme with the signer's coins");
+   ("rewards.ActivateExternalRewardsLend", "funds a reward programme with the signer's coins");
+   ("rewards.ActivateExternalRewardsStableMint", "funds a reward programme with the signer's coins");
+   ("collector.MsgDeposit", "one-off refund: the signer funds the collector, which pays a fixed list of accounts");
+   ("tokenmint.MsgMintNewTokensRequest", "mints the governance-approved genesis supply ONCE to the configured recipient (not to the signer)")].
+Definition admin_msgs : list string := ["esm.MsgKillRequest"].
+
+Definition msg_classes (m : msg_type) : nat :=
+  (if names_position m && negb (is_exempt m) then 1 else 0) +
+  (if names_position m && is_exempt m then 1 else 0) +
+  (if mem (mt_qname m) (map fst no_position_msgs) then 1 else 0) +
+  (if mem (mt_qname m) admin_msgs then 1 else 0) +
+  (if mem (mt_qname m) no_handler_ok then 1 else 0).
+Definition c12_classified_check : bool :=
+  forallb (fun m => negb (mem (mt_module m) defi_modules) || Nat.eqb (msg_classes m) 1) msg_types &&
+  (* the lists name registered messages only *)
+  forallb (fun n => existsb (fun m => String.eqb (mt_qname m) n) msg_types)
+          (map fst no_position_msgs ++ admin_msgs ++ map fst owner_exempt ++ signer_keyed_msgs).
+
+(* a message that is not a position message may change the balances / records of an account that
+   neither signed it nor is named by it only through the flows listed here *)
+Definition third_party_effect : list (string * string) :=
+  [("auction.MsgPlaceSurplusBid", "the previous highest bidder is paid back");
+   ("auction.MsgPlaceDebtBid", "the previous highest bidder is paid back");
+   ("auctionsV2.MsgPlaceMarketBid", "english auction: the previous highest bidder is paid back");
+   ("collector.Deposit", "pays the fixed refund list");
+   ("tokenmint.MsgMintNewTokens", "pays the configured recipient")].
+
+(* the handlers the EXTENDED authority / control matrices must send (harness TestC12X / TestC14X): every
+   msgServer method of the modules the plain matrices do not cover, plus the auctionsV2 ones on running
+   auctions; computed from the regenerated registry, so a new message of these modules that the harness
+   does not send is a reported mismatch *)
+Definition x_modules : list string :=
+  ["liquidation"; "auction"; "liquidationsV2"; "auctionsV2"; "esm"; "rewards"; "collector"; "tokenmint"].
+Fixpoint dedup (l : list string) : list string :=
+  match l with [] => [] | x :: r => if mem x r then dedup r else x :: dedup r end.
+Definition x_matrix_handlers : list string :=
+  dedup (map mt_handler (filter (fun m => mem (mt_module m) x_modules && negb (mem (mt_qname m) admin_msgs) &&
+                                          negb (String.eqb (mt_handler m) "")) msg_types)).
+(* ... and the plain matrices: every msgServer method of the five servers they enumerate *)
+Definition base_modules : list string := ["vault"; "locker"; "lend"; "liquidity"; "auctionsV2"].
+Definition base_matrix_handlers : list string :=
+  dedup (map mt_handler (filter (fun m => mem (mt_module m) base_modules && negb (String.eqb (mt_handler m) "")) msg_types)).
+Definition c12_matrix_cover_check : bool :=
+  forallb (fun m => negb (mem (mt_module m) defi_modules) || String.eqb (mt_handler m) "" || mem (mt_qname m) admin_msgs ||
+                    mem (mt_handler m) x_matrix_handlers || mem (mt_handler m) base_matrix_handlers) msg_types.
+
 (* wasm *)
 Definition c12_wasm_check : bool :=
   forallb wasm_row_ok wasm_table &&
@@ -169,6 +261,8 @@ Definition c12_wasm_check : bool :=
 
 Definition find_wasm (v : string) : option wasm_row :=
   find (fun w => String.eqb (w_variant w) v) wasm_table.
+
+Definition wasm_variant_names : list string := map w_variant wasm_table.
 
 (* kill switch: the admin check stands before any write *)
 Definition kill_switch_ok : bool :=
@@ -215,6 +309,56 @@ Definition c14_scope_closed : bool :=
   forallb (fun h => negb (mem (h_module h) ["vault"; "locker"; "lend"]) ||
                     mem (h_name h) breaker_scope || mem (h_name h) (map fst breaker_out_of_scope)) handlers.
 
+(* "no liquidation ... is started for it": the liquidate MESSAGES of both generations refuse while the
+   breaker of the governing app is enabled.  Generation 1: the breaker (or ESM-or-breaker) check stands on
+   every path to success of the handler's own row.  Generation 2: the handler only dispatches to the two
+   functions the block sweep runs per position (the writing call is not entered by the walk); they are rows
+   of Gen/SweepGuards.v, each gated by the breaker before any write, and the handler's regenerated call
+   chain (h_price) names them. *)
+Definition liquidation_msg_scope : list (string * string) :=
+  [("liquidation.MsgLiquidateVault", "generation 1, a vault");
+   ("liquidation.MsgLiquidateBorrow", "generation 1, a borrow");
+   ("liquidationsV2.MsgLiquidateInternalKeeper", "generation 2, a vault or a borrow")].
+Definition liquidation_msg_names : list string := map fst liquidation_msg_scope.
+Definition liquidate_msg_dispatch : list (string * list string) :=
+  [("liquidationsV2.MsgLiquidateInternalKeeper",
+    ["liquidationsV2.LiquidateIndividualVault"; "liquidationsV2.LiquidateIndividualBorrow"])].
+Definition refuses_under_breaker (n : string) : bool :=
+  match find_handler n with
+  | Some h => scan helper_rows false is_breaker_guard scan_fuel (h_items h)
+  | None => false
+  end.
+Definition dispatch_gated (n : string) (fs : list string) : bool :=
+  forallb (fun f => existsb (fun r => String.eqb (s_name r) f && sweep_row_ok r) sweep_table) fs &&
+  match find_handler n with
+  | Some h => forallb (fun f => existsb (fun u => String.eqb (pu_callee u) f) (h_price h)) fs
+  | None => false
+  end.
+Definition liquidate_msg_gated (n : string) : bool :=
+  match assoc n liquidate_msg_dispatch with
+  | Some fs => dispatch_gated n fs
+  | None => refuses_under_breaker n
+  end.
+Definition c14_liquidation_msgs_check : bool := forallb liquidate_msg_gated liquidation_msg_names.
+(* liquidation / auction / esm handlers the breaker clause of the property does not list: (handler, reason) *)
+Definition x_breaker_out_of_scope : list (string * string) :=
+  [("liquidationsV2.MsgLiquidateExternalKeeper", "an outside application auctions collateral it brings itself: not a sweep, not a surplus / debt auction, no position of the app (the code does not read the breaker)");
+   ("liquidationsV2.MsgAppReserveFunds", "funds the reserve; no position");
+   ("auction.MsgPlaceSurplusBid", "a bid on an auction that already runs"); ("auction.MsgPlaceDebtBid", "a bid on an auction that already runs");
+   ("auction.MsgPlaceDutchBid", "a bid on an auction that already runs"); ("auction.MsgPlaceDutchLendBid", "a bid on an auction that already runs");
+   ("auctionsV2.MsgPlaceMarketBid", "a bid on an auction that already runs");
+   ("auctionsV2.MsgDepositLimitBid", "limit bids are not positions of the app"); ("auctionsV2.MsgCancelLimitBid", "limit bids are not positions of the app");
+   ("auctionsV2.MsgWithdrawLimitBid", "limit bids are not positions of the app");
+   ("esm.DepositESM", "the emergency controls themselves"); ("esm.ExecuteESM", "the emergency controls themselves");
+   ("esm.MsgCollateralRedemption", "redemption after shutdown");
+   ("rewards.CreateGauge", "reward programme; no position"); ("rewards.ExternalRewardsLockers", "reward programme; no position (the code does guard it)");
+   ("rewards.ExternalRewardsVault", "reward programme; no position (the code does guard it)");
+   ("rewards.ExternalRewardsLend", "reward programme; no position (the code does guard it)");
+   ("rewards.ExternalRewardsStableMint", "reward programme; no position (the code does guard it)");
+   ("collector.Deposit", "one-off refund"); ("tokenmint.MsgMintNewTokens", "genesis mint")].
+Definition c14_x_scope_closed : bool :=
+  forallb (fun n => mem n liquidation_msg_names || mem n (map fst x_breaker_out_of_scope)) x_matrix_handlers.
+
 (* every vault handler that can reach bank.MintCoins has the ESM check before any write *)
 Definition esm_mint_scope : list handler :=
   filter (fun h => String.eqb (h_module h) "vault" && h_mints h) handlers.
@@ -249,7 +393,7 @@ Definition price_modules : list string :=
   ["vault"; "locker"; "lend"; "liquidation"; "liquidationsV2"; "auction"; "auctionsV2"].
 Definition price_unverified : list (string * string) :=
   [("liquidation.MsgLiquidateBorrow",
-    "cross-pool branches and UpdateLockedBorrows assign the price error to _ (msg_server.go:163,177; liquidate_borrow.go)");
+    "cross-pool branches and UpdateLockedBorrows assign the price error to _ (msg_server.go:169,183 - repaired by C14-F2; UpdateLockedBorrows in liquidate_borrow.go)");
    ("auction.MsgPlaceDutchLendBid",
     "the close path reaches lend.CreteNewBorrow / liquidation.UpdateLockedBorrows which assign the price error to _")].
 Definition price_scope : list handler :=
@@ -350,6 +494,19 @@ Definition holds_C12_owner (handler_name : string) (signer_is_owner signer_has_p
     then negb ok || (if signer_has_positions then negb victim_changed else negb changed)
     else negb ok)).
 
+(* C12, extended matrix.  On top of holds_C12_owner:
+   [victim_changed]: a balance or record of the owner whose positions the message names changed although
+   he did not sign - allowed only for position messages (judged above) and the reviewed exemptions
+   (liquidation of an unhealthy position; the shared stable-mint pool);
+   [bystander_changed]: a balance or record of a position owner who neither signed nor is named changed -
+   allowed only through the flows of [third_party_effect]. *)
+Definition holds_C12_x (handler_name : string)
+  (signer_is_owner signer_has_positions ok changed victim_changed bystander_changed : bool) : bool :=
+  holds_C12_owner handler_name signer_is_owner signer_has_positions ok changed victim_changed &&
+  (signer_is_owner || negb victim_changed || handler_position_msg handler_name || handler_exempt handler_name ||
+   mem handler_name (map fst third_party_effect)) &&
+  (negb bystander_changed || mem handler_name (map fst third_party_effect)).
+
 (* C12 wasm: on a named network an accepted custom message comes from the designated contract *)
 Definition holds_C12_wasm (variant chain sender : string) (accepted changed : bool) : bool :=
   (negb (mem chain named_networks) || negb accepted ||
@@ -369,6 +526,7 @@ Definition wasm_model_accepts (variant chain sender : string) : option bool :=
 Definition in_esm_mint_scope (n : string) : bool := existsb (fun h => String.eqb (h_name h) n) esm_mint_scope.
 Definition holds_C14 (n : string) (breaker : bool) (esm_phase : Z) (ok changed : bool) : bool :=
   (negb (breaker && mem n breaker_scope) || negb ok) &&
+  (negb (breaker && mem n liquidation_msg_names) || negb ok) &&
   (negb ((0 <? esm_phase)%Z && in_esm_mint_scope n) || negb ok) &&
   (negb ((esm_phase =? 2)%Z && String.eqb n "vault.MsgWithdraw") || negb ok) &&
   (ok || negb changed).
